@@ -129,6 +129,13 @@ def run(chk):
             chk.ok("C18.dns", c, "the shared DNS lookup runs in its own Task and is awaited only through asyncio.shield: cancelling one request does not cancel the lookup others wait for")
         else:
             chk.violation("C18.dns", c, K.short(c), "Task + await asyncio.shield(task)", "cancelling one request cancels the DNS lookup shared with other requests")
+    canc = [c for c in prog.calls_in(rh.node) if isinstance(c.func, ast.Attribute) and c.func.attr == "cancel" and "task" in norm.raw(c.func.value)]
+    if canc:
+        for c in canc:
+            chk.violation("C18.dns", c, K.short(c), "no cancel() of the shared lookup task",
+                          "the shared DNS lookup is cancelled by one requester: a request that joins the still-registered lookup in the same loop iteration receives its CancelledError although nobody cancelled it")
+    else:
+        chk.ok("C18.dns", rh, "no requester ever cancels the shared lookup task")
     fa = K.exprs(rh, "futures.add(future)")
     fw = [a for a in prog.awaits_in(rh.node) if norm.raw(a.value) == "future"]
     if fa and fw and any(t.finalbody and any(M.contains(s, "futures.discard(future)") for s in t.finalbody) and prog.in_body_of(fw[0], t, "body") for t in prog.enclosing(fw[0], (ast.Try,))):
